@@ -16,6 +16,8 @@ import shutil
 import subprocess
 import time
 
+import scratchcrate
+
 HERE = os.path.dirname(os.path.abspath(__file__))
 
 
@@ -286,7 +288,8 @@ def hardware_grid(sets, names, repo, workdir):
     for every combination of a fixed grid of edge values (20 f64 bit patterns incl. NaN payloads / signed zeros /
     subnormals / 2^53 / 2^63, 10 integers, both booleans).  CBMC's floating-point model returns one canonical NaN from
     arithmetic; the hardware keeps payloads, so a law that breaks only there is invisible to CBMC."""
-    crate = make_scratch(repo, workdir, [], name='grid_crate')
+    crate = os.path.join(workdir, 'hwgrid_crate')
+    unique = scratchcrate.make(repo, crate)
     body = ''
     for s in sets:
         src = open(os.path.join(HERE, 'kani', s + '.rs')).read()
@@ -306,12 +309,13 @@ def hardware_grid(sets, names, repo, workdir):
         f.write(GRID_SHIM + '\n#[cfg(test)]\nmod verif_grid;\n')
     env = dict(os.environ)
     env['CARGO_NET_OFFLINE'] = 'true'
-    env['CARGO_TARGET_DIR'] = os.environ.get('VERIF_CARGO_TARGET', os.path.join(repo, 'target'))
+    env['CARGO_TARGET_DIR'] = scratchcrate.target_dir()
     t0 = time.time()
     p = subprocess.run(['cargo', 'test', '--offline', '--lib', 'verif_grid::verif_grid', '--', '--exact', '--nocapture'],
                        cwd=crate, env=env, stdout=subprocess.PIPE, stderr=subprocess.STDOUT, text=True, timeout=1500)
     out = p.stdout
     shutil.rmtree(crate, ignore_errors=True)
+    scratchcrate.cleanup(unique)
     per, fails, total = {}, [], 0
     for ln in out.split('\n'):
         m = re.match(r'GRID (\w+) runs=(\d+) (ok|FAIL)(.*)$', ln.strip())
@@ -336,7 +340,8 @@ def hardware_grid(sets, names, repo, workdir):
 
 def replay_vals(fi, repo, workdir):
     """replays a Kani counterexample on a scratch copy of the real crate with `cargo test` (no Kani involved)"""
-    crate = make_scratch(repo, workdir, [], name='replay_crate')
+    crate = os.path.join(workdir, 'replay_crate')
+    unique = scratchcrate.make(repo, crate)
     src = open(os.path.join(HERE, 'kani', fi['set'] + '.rs')).read()
     src = src.replace('#[kani::proof]', '#[allow(dead_code)]')
     src = re.sub(r'#\[kani::unwind\(\d+\)\]', '', src)
@@ -355,11 +360,12 @@ fn verif_replay() {
         f.write(SHIM + '\n#[cfg(test)]\nmod verif_replay;\n')
     env = dict(os.environ)
     env['CARGO_NET_OFFLINE'] = 'true'
-    env['CARGO_TARGET_DIR'] = os.environ.get('VERIF_CARGO_TARGET', os.path.join(repo, 'target'))
+    env['CARGO_TARGET_DIR'] = scratchcrate.target_dir()
     p = subprocess.run(['cargo', 'test', '--offline', '--lib', 'verif_replay::verif_replay', '--', '--exact', '--nocapture'],
                        cwd=crate, env=env, stdout=subprocess.PIPE, stderr=subprocess.STDOUT, text=True, timeout=1500)
     out = p.stdout
     shutil.rmtree(crate, ignore_errors=True)
+    scratchcrate.cleanup(unique)
     if 'REPLAY-ASSUMPTION-VIOLATED' in out or 'ran out of recorded values' in out:
         return {'confirmed': False, 'why': 'recorded values do not drive the harness on the real build', 'tail': out[-600:]}
     if re.search(r'test result: FAILED', out) and 'panicked at' in out:
